@@ -71,6 +71,10 @@ def run(ctx):
     # graph stage (instructions + performer on abstract parameter classes) AND the whole pipeline (bit-exact output, WF.modelOK /
     # skeleton evaluated on the model's own output, NF membership) are compared with the Lean model on every case
     fp.explore(ctx, drv, 600 if ctx.tier == "quick" else 4000, per_case, gen=gen, graph_corr=True, pipe_corr=True)
+    # operators whose WEIGHT operand is a runtime tensor (outside the hypothesis WeightConst16 of C01.kernel_signatures_ok for the 16-bit
+    # convolutions; a constant DATA operand, the other excluded shape, is folded away by converters and is not generated)
+    fp.explore(ctx, drv, 30 if ctx.tier == "quick" else 250, lambda case, res: res["status"] == "ok" and fp.oracle_c01(ctx, interp, case, res),
+               gen=lambda rng_, i: fp.gen_runtime_weight(rng_), graph_corr=True, pipe_corr=True)
     interp.close()
     drv.close()
     return common.finish(ctx)
